@@ -22,6 +22,9 @@ def jinja_templates(tier):
         ws_src = [t for t in base if len(t) <= 44]
         kws = 2
     s = set(base) | set(rich)
+    # tokens spanning several template slices / templated whitespace, and nested (depth 2) control flow
+    s |= set(corpus.span_templates(4))
+    s |= set(corpus.nested_templates(full=(tier != "quick")))
     for t in ws_src:
         s |= corpus.ws_control_variants(t, kws)
     for t in UNDEF_EXTRA:
@@ -110,6 +113,50 @@ def ph_linter(style, vi):
     cfg = {"param_style": style}
     cfg.update(PH_VALUES[vi])
     return sq.linter("ansi", "placeholder", configs={"templater": {"placeholder": cfg}})
+
+
+def if_inside_for(tf) -> bool:
+    """Structural feature of a TemplatedFile: an if/elif tag occurs inside the body of a for loop."""
+    import re
+
+    stack = []
+    for rs in tf.raw_sliced:
+        if rs.slice_type not in ("block_start", "block_mid", "block_end"):
+            continue
+        m = re.match(r"\{%[-+]?\s*(\w+)", rs.raw)
+        word = m.group(1) if m else ""
+        if word == "for":
+            stack.append("for")
+        elif word == "if":
+            if "for" in stack:
+                return True
+            stack.append("if")
+        elif word == "elif":
+            if "for" in stack[:-1] or (stack and stack[-1] == "for"):
+                return True
+        elif word in ("endfor", "endif") and stack:
+            stack.pop()
+    return False
+
+
+def token_spans_slices(tf, toks) -> bool:
+    """Structural feature: some non-whitespace token strictly contains the position of a zero-width
+    template slice (tag/comment) or overlaps two or more template slices."""
+    for x in toks:
+        if x.is_meta or x.pos_marker is None:
+            continue
+        ts_ = x.pos_marker.templated_slice
+        touched = 0
+        for s in tf.sliced_file:
+            a, b = s.templated_slice.start, s.templated_slice.stop
+            if a == b:
+                if ts_.start < a < ts_.stop:
+                    return True
+            elif a < ts_.stop and ts_.start < b:
+                touched += 1
+        if touched >= 2:
+            return True
+    return False
 
 
 def check_slices(tf, add, variant):
